@@ -119,6 +119,24 @@ func exportDirective(doc *ast.CommentGroup) string {
 func (r *renderer) decl(d ast.Decl) {
 	switch d := d.(type) {
 	case *ast.GenDecl:
+		if d.Lparen.IsValid() && (d.Tok == token.CONST || d.Tok == token.VAR || d.Tok == token.GLOBAL) {
+			// grouped declaration: 常量: … 完毕 (implicit repetition and 嘀嗒 count per line)
+			kw := token.K_全局
+			if d.Tok == token.CONST {
+				kw = token.K_常量
+			}
+			r.w(kw + ":")
+			r.indent++
+			for _, s := range d.Specs {
+				r.nl()
+				r.valueSpec(s.(*ast.ValueSpec))
+			}
+			r.indent--
+			r.nl()
+			r.w(token.K_完毕)
+			r.nl()
+			break
+		}
 		for _, s := range d.Specs {
 			switch s := s.(type) {
 			case *ast.ImportSpec:
@@ -184,14 +202,8 @@ func (r *renderer) typeSpec(s *ast.TypeSpec) {
 		r.w(token.K_完毕)
 		r.nl()
 	default:
-		if s.Assign.IsValid() {
-			if _, ok := s.Type.(*ast.Ident); ok {
-				r.w(token.K_类型 + token.K_点 + s.Name.Name + " = ")
-				r.typ(s.Type)
-				r.nl()
-				return
-			}
-		}
+		// 类型 T = U exists in .wz but declares an ALIAS, and .wa has no alias declaration: the two
+		// `type` forms have no counterpart in the other syntax
 		r.fail("type declaration of a non-struct, non-interface type")
 	}
 }
@@ -217,6 +229,11 @@ func (r *renderer) funcDecl(d *ast.FuncDecl) {
 	if x := exportDirective(d.Doc); x != "" {
 		r.w(x)
 		r.nl()
+	} else if d.Recv == nil && strings.HasPrefix(d.Name.Name, "Case") {
+		if n, err := strconv.Atoi(d.Name.Name[4:]); err == nil {
+			r.w(token.K_X_wz_export + " case_" + strconv.Itoa(n))
+			r.nl()
+		}
 	}
 	r.w(token.K_函数 + token.K_点)
 	name := d.Name.Name
@@ -370,6 +387,25 @@ func (r *renderer) stmt(s ast.Stmt) {
 		r.simple(s)
 	case *ast.DeclStmt:
 		gd := s.Decl.(*ast.GenDecl)
+		kw := token.K_设定
+		if gd.Tok == token.CONST {
+			kw = token.K_常量
+		}
+		if gd.Tok == token.TYPE {
+			r.fail("local type declaration")
+		}
+		if gd.Lparen.IsValid() {
+			r.w(kw + ":")
+			r.indent++
+			for _, sp := range gd.Specs {
+				r.nl()
+				r.valueSpec(sp.(*ast.ValueSpec))
+			}
+			r.indent--
+			r.nl()
+			r.w(token.K_完毕)
+			break
+		}
 		for i, sp := range gd.Specs {
 			if i > 0 {
 				r.nl()
@@ -378,11 +414,7 @@ func (r *renderer) stmt(s ast.Stmt) {
 			if !ok {
 				r.fail("local type declaration")
 			}
-			if gd.Tok == token.CONST {
-				r.w(token.K_常量 + " ")
-			} else {
-				r.w(token.K_设定 + " ")
-			}
+			r.w(kw + " ")
 			r.valueSpec(vs)
 		}
 	case *ast.ReturnStmt:
@@ -570,6 +602,9 @@ func (r *renderer) expr(x ast.Expr) {
 		r.expr(e.Y)
 	case *ast.UnaryExpr:
 		r.w(e.Op.String())
+		if u, ok := e.X.(*ast.UnaryExpr); ok && u.Op == e.Op {
+			r.w(" ") // - -x, & &x: keep the two operators apart
+		}
 		r.expr(e.X)
 	case *ast.StarExpr:
 		r.w("*")
@@ -639,7 +674,11 @@ func (r *renderer) expr(x ast.Expr) {
 			}
 			if kv, ok := el.(*ast.KeyValueExpr); ok {
 				// a struct field name is an identifier that stays as it is; map/array keys are expressions
-				r.expr(kv.Key)
+				if id, ok := kv.Key.(*ast.Ident); ok && id.Obj == nil && (id.Name == "true" || id.Name == "false" || id.Name == "nil") {
+					r.w(Universe[id.Name]) // the parser does not list a literal key among the unresolved identifiers
+				} else {
+					r.expr(kv.Key)
+				}
 				r.w(": ")
 				r.expr(kv.Value)
 			} else {
@@ -710,4 +749,3 @@ var englishPairs = func() [][2]string {
 	return out
 }()
 
-var _ = strconv.Itoa
